@@ -423,3 +423,119 @@ def c08_unedited_scaffold_is_found_whole():
         ("no-start-discard", pc, z3.Not(a - start > err)),
         ("no-end-discard", pc, z3.Not(end - b > err)),
     ]
+
+
+def _row(name):
+    r = z3.Const(name, smt.Row)
+    from pyvc.spec import RowView
+
+    return RowView(r)
+
+
+def c05_agp_columns_roundtrip():
+    """C05 over the contracts of format_agp (line of row i = "\\t".join(agp_cols(...))) and parse_agp (row built
+    from the columns of a line = agp_row_is): reading back the columns that were written gives a row with the same
+    coordinates, strand, tags, gap length and gap type, homed in the same scaffold.  Uses int(str(n)) == n for
+    n >= 0 (decided by the solver's string theory).  Domain: coordinates and gap lengths >= 0.  The lemma works on
+    the individual column terms (column k of the written list is the k-th term by the shape of agp_cols; z3's
+    sequence theory is not asked to index into the concatenation)."""
+    from .format import agp_col_terms, agp_cols, agp_cols_parts
+    from .parser import agp_row_from
+
+    r, r2 = _row("r"), _row("r2")
+    name = z3.String("objname")
+    p, i = z3.Ints("p i")
+    cols = agp_cols(name, p, i, r)
+    cg, cf = agp_cols_parts(name, p, i, r)
+    head, gap, frag, tags = agp_col_terms(name, p, i, r)
+    dom = [p >= 0, i >= 0, r.length >= 0, z3.Implies(r.is_frag, z3.And(r.start >= 0, r.end >= r.start))]
+    back_gap = agp_row_from(r2, gap[0], gap[1], gap[2], gap[3], gap[4], z3.Empty(smt.StrSeq))
+    back_frag = agp_row_from(r2, frag[0], frag[1], frag[2], frag[3], frag[4], tags)
+    return [
+        ("columns-of-a-gap-row", dom + [r.is_gap], cols == cg),
+        ("columns-of-a-sequence-row", dom + [r.is_frag], cols == cf),
+        ("home-scaffold", dom, head[0] == name),
+        ("gap-row", dom + [r.is_gap, back_gap], z3.And(r2.is_gap, r2.length == r.length, r2.gap_type == r.gap_type)),
+        ("sequence-row", dom + [r.is_frag, back_frag], z3.And(r2.is_frag, r2.name == r.name, r2.start == r.start, r2.end == r.end, r2.strand == r.strand, r2.tags == r.tags)),
+        ("gap-row-has-nine-columns", dom, z3.Length(cg) == 9),
+    ]
+
+
+def c05_tpf_columns_roundtrip():
+    """the same for TPF, for what TPF can carry (strands PLUS/MINUS, no tags, AGP gap types): format_tpf's columns
+    read back by parse_tpf give the same row.  The fragment-name pattern (.+):(\\d+)-(\\d+)$ applied to
+    name + ':' + str(start) + '-' + str(end) yields (name, str(start), str(end)) - lexing axiom, checked against
+    CPython by the bounded tier; the two gap-type tables are inverse on the AGP gap types (lemma c05_gap_type_tables)."""
+    from pyvc.engine import int_to_str
+    from .format import LOWER_UNDERSCORE, UPPER_DASH, tpf_cols, tpf_cols_parts, tpf_gap_type, tpf_strand
+    from .parser import tpf_name_groups, tpf_row_from
+
+    r, r2 = _row("r"), _row("r2")
+    name = z3.String("scaffold_name")
+    cols = tpf_cols(name, r)
+    cg, cf = tpf_cols_parts(name, r)
+    text = z3.Concat(r.name, z3.StringVal(":"), int_to_str(r.start), z3.StringVal("-"), int_to_str(r.end))
+    g1, g2, g3 = tpf_name_groups(text)
+    lexing = z3.And(g1 == r.name, g2 == int_to_str(r.start), g3 == int_to_str(r.end))
+    t = r.gap_type
+    tables = z3.Implies(z3.And(t != z3.StringVal("scaffold"), t != z3.StringVal("contig")),
+                        z3.And(smt.str_fn(LOWER_UNDERSCORE)(smt.str_fn(UPPER_DASH)(t)) == t,
+                               smt.str_fn(UPPER_DASH)(t) != z3.StringVal("TYPE-2"), smt.str_fn(UPPER_DASH)(t) != z3.StringVal("TYPE-3")))
+    dom = [r.length >= 0, z3.Implies(r.is_frag, z3.And(r.start >= 0, r.end >= r.start, z3.Or(r.strand == 1, r.strand == -1)))]
+    return [
+        ("columns-of-a-gap-row", dom + [r.is_gap], cols == cg),
+        ("columns-of-a-sequence-row", dom + [r.is_frag], cols == cf),
+        ("gap-row", dom + [r.is_gap, tables, tpf_row_from(r2, z3.StringVal("GAP"), tpf_gap_type(t), int_to_str(r.length), z3.StringVal(""))],
+         z3.And(r2.is_gap, r2.length == r.length, r2.gap_type == r.gap_type)),
+        ("sequence-row", dom + [r.is_frag, lexing, tpf_row_from(r2, z3.StringVal("?"), text, name, tpf_strand(r))],
+         z3.And(r2.is_frag, r2.name == r.name, r2.start == r.start, r2.end == r.end, r2.strand == r.strand)),
+        ("sequence-row-has-four-columns", dom, z3.Length(cf) == 4),
+    ]
+
+
+def c05_gap_type_tables():
+    """the two str.maketrans tables of format.py / parser.py, read from the source: characterwise inverse on
+    [a-z_] / [A-Z-], so lower_underscore(upper_dash(t)) == t for every gap type over [a-z_]; and none of the AGP
+    gap types other than scaffold / contig is sent to TYPE-2 / TYPE-3."""
+    import ast
+    import string
+
+    from pyvc import source
+
+    def table(modname, fname):
+        fn = source.load(modname).functions[fname]
+        ret = [n for n in ast.walk(fn) if isinstance(n, ast.Return)][0].value
+        if not (isinstance(ret, ast.Call) and ast.unparse(ret.func) == "str.maketrans" and len(ret.args) == 2):
+            raise ValueError(f"{fname} is no longer str.maketrans(a, b)")
+        a, b = (eval(compile(ast.Expression(x), "<table>", "eval"), {"__builtins__": {}, "string": string}) for x in ret.args)  # noqa: S307
+        if len(a) != len(b):
+            raise ValueError("maketrans arguments of different length")
+        return list(zip(map(ord, a), map(ord, b)))
+
+    up = table("tola.assembly.format", "uppercase_and_underscore_to_dash")
+    down = table("tola.assembly.parser", "lowercase_and_dash_to_underscore")
+
+    def fn(pairs):
+        def f(t):
+            r = t
+            for p, q in pairs:
+                r = z3.If(t == p, z3.IntVal(q), r)
+            return r
+
+        return f
+
+    U, D = fn(up), fn(down)
+    c = z3.Int("c")
+    lower = z3.Or(z3.And(97 <= c, c <= 122), c == ord("_"))
+    upper = z3.Or(z3.And(65 <= c, c <= 90), c == ord("-"))
+    out = [
+        ("down-after-up-is-identity-on-lowercase", [lower], D(U(c)) == c),
+        ("up-after-down-is-identity-on-uppercase", [upper], U(D(c)) == c),
+        ("up-maps-lowercase-to-uppercase", [lower], z3.Or(z3.And(65 <= U(c), U(c) <= 90), U(c) == ord("-"))),
+    ]
+    # the AGP gap types (NCBI AGP 2.1) other than scaffold/contig never collide with TYPE-2 / TYPE-3
+    agp_types = ["centromere", "short_arm", "heterochromatin", "telomere", "repeat", "contamination"]
+    trans = {p: q for p, q in up}
+    ok = all("".join(chr(trans.get(ord(ch), ord(ch))) for ch in t) not in ("TYPE-2", "TYPE-3") for t in agp_types)
+    out.append(("agp-gap-types-do-not-collide-with-TYPE-2-3", [], z3.BoolVal(ok)))
+    return out
